@@ -4,6 +4,7 @@ mod autoalloc;
 mod stream;
 mod launch;
 mod queueids;
+mod realserver;
 mod sched;
 mod journal;
 mod oracle;
@@ -250,6 +251,10 @@ fn main() {
         }
         "sched" => {
             let code = sched::main(&args[2..]);
+            std::process::exit(code);
+        }
+        "realserver" => {
+            let code = realserver::main(&args[2..]);
             std::process::exit(code);
         }
         "queueids" => {
